@@ -63,7 +63,7 @@ def run(chk, tier, seed):
     named = case_list(tier, seed)
     npres = 2 if tier == "quick" else 3
     pres = [le.presentation(seed, i) for i in range(npres)]
-    subsets = {"all_upto": 6, "sampled": 1} if tier == "quick" else {"all_upto": 8, "sampled": 3}
+    subsets = {"all_upto": 6, "sampled": 0} if tier == "quick" else {"all_upto": 8, "sampled": 3}
     lr = le.LearnRun(named, (1, 2), pres, seed=seed, max_jobs=400 if tier == "quick" else 500, subsets=subsets).run()
     ndocs, stats = evaluate(chk, lr)
     nstr, gr = grammar_vs_parser(6 if tier == "quick" else 7)
